@@ -312,8 +312,8 @@ func Open(dir string, spec Spec, f *seams.Faults, name string) (*World, error) {
 }
 
 var (
-	tinkMu    sync.Mutex
-	tinkPool  = map[string][]*lateBound{}
+	tinkMu   sync.Mutex
+	tinkPool = map[string][]*lateBound{}
 )
 
 // lateBound is a part store whose target is set per run; it lets one Tink
